@@ -97,7 +97,7 @@ class World(BaseWorld):
              'second_virial': rc.uniform(0.3, 2), 'chi': rc.uniform(0.3, 2), 'spinodal_condition': rc.uniform(0.3, 2),
              'solvation_potential': rc.uniform(0.3, 2), 'transform': rc.uniform(0.5, 4), 'resolve': rc.uniform(0.0, 1.2)}
         names = sorted(w)
-        n = ro.randrange(2, 26)
+        n = ro.randrange(2, 26) if tier != 'thorough' else ro.choice([ro.randrange(2, 26), ro.randrange(20, 50)])
         ops = []
         for _ in range(n):
             k = ro.choices(names, [w[x] for x in names])[0]
